@@ -64,6 +64,7 @@ class Module(object):
         self.classes = {}
         self.assigns = {}     # name -> list of value nodes (module level, in order)
         self.imports = {}     # local name -> (module, attr)
+        self.star_imports = []  # modules imported with *
         self._index(self.tree.body)
 
     def _index(self, body):
@@ -78,6 +79,9 @@ class Module(object):
                         self.assigns.setdefault(t.id, []).append(st.value)
             elif isinstance(st, ast.ImportFrom):
                 for a in st.names:
+                    if a.name == '*':
+                        self.star_imports.append(('.' * st.level) + (st.module or ''))
+                        continue
                     self.imports[a.asname or a.name] = (('.' * st.level) + (st.module or ''), a.name)
             elif isinstance(st, ast.Import):
                 for a in st.names:
